@@ -5,7 +5,9 @@ Model   : mc/ref/syntax.py - reference lexer, pushdown recogniser / tree builder
           recogniser over an explicit BNF in selfcheck().
 Space 1 : token-level search.  From each seed prefix (one per grammar context) every token string
           over the 24-token alphabet that keeps the prefix viable, up to the depth bound; for
-          every such prefix p and every token t the texts p, p.t and p.close(p) are parsed.
+          every such prefix p and every token t the texts p, p.t and p.close(p) are parsed; where
+          t is offending only because of its context (a statement kind or separator that this
+          list does not admit) p.t is also completed in a superset language and must be rejected.
 Space 2 : near misses of a pool of derivable programs: every single-token deletion, duplication,
           adjacent swap and replacement by each alphabet token.
 Space 3 : layouts of the pool programs: every rendering with <= 2 (thorough 3) deviations from the
@@ -32,6 +34,11 @@ from mc.ref import syntax as S
 
 ALPHABET = S.ALPHABET
 _KV = {}
+
+try:  # parse_jaqal_string installs the implementation's sly fast path (process-wide); observe the parser as users run it
+    impl.parse("")
+except Exception:  # noqa: BLE001 - a broken tree shows up in the cases, not at import
+    pass
 
 
 def kv(t):
@@ -111,6 +118,8 @@ POOL = tuple(
     )
 )
 
+_BY_SIZE = tuple(sorted((a for a in ALPHABET if a != "\n"), key=lambda a: (len(a), a)))
+
 # layout deviation menu: text pieces added to an inter-token gap
 _PIECE = {
     "sp": " ",
@@ -162,6 +171,8 @@ def render_layout(toks, devs):
     gaps = {}
     subs = {}
     for pos, kind in devs:
+        if kind not in _PIECE and not (kind[0] == "s" and kind[1:].isdigit()) or not 0 <= pos <= n:
+            raise ValueError("unknown layout deviation %r" % ((pos, kind),))
         if kind[0] == "s" and kind[1:].isdigit():
             if pos in subs:
                 return None
@@ -174,6 +185,8 @@ def render_layout(toks, devs):
         if not res.ok:
             raise ValueError("layout of a non-derivable token string")
         for pos, a in subs.items():
+            if not (0 <= pos < n and toks[pos] in (";", "|", "\n") and 0 <= a < 3):
+                raise ValueError("not a separator deviation: %r" % ((pos, a),))
             out[pos] = _sep_alternatives(toks[pos], res.configs[pos][1][-1][0])[a]
             if "lc" in gaps.get(pos, ()) and not out[pos].startswith("\n"):
                 return None  # the separator would end up inside the line comment
@@ -250,6 +263,20 @@ def judge(text, verdict, obs):
             % (where, line, col, sorted(positions), S.end_position(text)))
 
 
+def _positions_from(texts, k):
+    """(line, col) of the tokens k, k+1, .. of a token string laid out with single blanks"""
+    off, line, linestart = 0, 1, 0
+    pos = set()
+    for i, t in enumerate(texts):
+        if i >= k:
+            pos.add((line, off - linestart + 1))
+        if t == "\n":
+            line += 1
+            linestart = off + 1
+        off += len(t) + 1
+    return frozenset(pos)
+
+
 def model_verdict(text):
     """The model's answer for a text, through the reference lexer."""
     toks = S.lex(text)
@@ -271,7 +298,8 @@ class C02(Check):
     id = "C02"
     rule = (
         "space 1: every token string over a 24-token alphabet that keeps one of 16 seed prefixes viable, up to the depth "
-        "bound; one case = one viable prefix with all 24 next tokens and its shortest completion (non-trivial = the prefix "
+        "bound; one case = one viable prefix with all 24 next tokens, its shortest completion and the superset-language "
+        "completions of context-offending tokens (non-trivial = the prefix "
         "is viable but not itself derivable, so the verdict depends on the context stack; distinct by token string). "
         "space 2: one case = all deletions/duplications/swaps/replacements at one token of a pool program (non-trivial = "
         "both accepted and rejected mutants occur). space 3: one case = a set of layout deviations of a pool program with "
@@ -284,7 +312,8 @@ class C02(Check):
         "an error position that equals the position just past the last character, or a non-integer line such as 'EOF', "
         "denotes the end of input; the end of input is always an acceptable position",
         "header-after-body is a syntax rule: the first offending token is the header keyword",
-        "termination of the parser is judged by C16; space 1 runs without the fuel meter",
+        "termination of the parser is judged by C16; the bulk of spaces 1 and 3 runs without the fuel meter",
+        "parse_to_sexpression is observed with the sly fast path that parse_jaqal_string installs on first use",
         "tokens are separated by at least one blank in spaces 1 and 2 (token gluing such as `1-1` is not explored)",
     )
     FAMILY_CAP = 2  # failures reported per (clause, family) and shard; all are counted
@@ -294,7 +323,7 @@ class C02(Check):
         if tier == "quick":
             return {"alphabet": len(ALPHABET), "seeds": len(SEEDS), "depth": 5, "depth_principal": 6, "tail": 0,
                     "pool_programs": len(POOL), "layout_deviations": 2, "layout3_max_tokens": 0}
-        return {"alphabet": len(ALPHABET), "seeds": len(SEEDS), "depth": 6, "depth_principal": 7, "tail": 1,
+        return {"alphabet": len(ALPHABET), "seeds": len(SEEDS), "depth": 7, "depth_principal": 7, "tail": 1,
                 "pool_programs": len(POOL), "layout_deviations": 3, "layout3_max_tokens": 16}
 
     def _depth(self, tier, sid):
@@ -393,6 +422,10 @@ class C02(Check):
                         if r is not None:
                             viable += 1
                             nxt[r[0]] += n
+                        else:
+                            rr = S.delta_relaxed(c, k)
+                            if rr is not None and S.close_kinds(rr[0]):
+                                ntext += n
                     npref += n
                     dead = len(kinds) - viable
                     ntext += n * (1 + (1 if S.close_kinds(c) else 0) + (len(kinds) if d == depth else dead))
@@ -463,6 +496,11 @@ class C02(Check):
                 for i in range(0, n - size + 1, size):
                     cands.append(items[:i] + items[i + size:])
                 size //= 2
+            # drop two lexemes at once (matching brackets, keyword + operand)
+            if n <= 14:
+                for i in range(n):
+                    for j in range(i + 2, n):
+                        cands.append(items[:i] + items[i + 1:j] + items[j + 1:])
             # simplify a lexeme
             for i, x in enumerate(items):
                 simple = None
@@ -473,6 +511,14 @@ class C02(Check):
                 if simple is not None:
                     cands.append(items[:i] + [simple] + items[i + 1:])
             cands.append(items)  # canonical spacing
+            # replace a token by a smaller alphabet token (funnels equivalent failures into one identity)
+            for i, x in enumerate(items):
+                if x.startswith("/*") or x.startswith("//"):
+                    continue
+                for a in _BY_SIZE:
+                    if (len(a), a) >= (len(x), x):
+                        break
+                    cands.append(items[:i] + [a] + items[i + 1:])
             for c in cands:
                 s = mk(need_nl(c))
                 if s not in seen and (len(s), s) < (len(text), text):
@@ -571,6 +617,14 @@ class C02(Check):
             r = S.delta(config, kind)
             if r is None:
                 out.append((lead + t, ("err", len(base), frozenset(((line, col),)), t)))
+                rr = S.delta_relaxed(config, kind)
+                if rr is not None:
+                    # offending only because of its context: a parser that shifts it anyway is
+                    # exposed by accepting the text completed in the superset language
+                    ck2 = S.close_kinds(rr[0])
+                    if ck2:
+                        full_toks = base + (t,) + tuple(S.kind_text(kd) for kd in ck2)
+                        out.append((" ".join(full_toks), ("err", len(base), _positions_from(full_toks, len(base)), t)))
                 continue
             c2 = r[0]
             children.append((t, c2))
@@ -640,7 +694,7 @@ class C02(Check):
             ctx.nontriv((pid, i))
 
     # space 3 ---------------------------------------------------------------------------
-    def _run_layout(self, toks, devs, ctx, canon):
+    def _run_layout(self, toks, devs, ctx, canon, bundle=False):
         """One layout; canon = (model tree, observation of the canonical layout) or None."""
         text = render_layout(toks, devs)
         if text is None:
@@ -652,7 +706,7 @@ class C02(Check):
                 raise ValueError("layout case over a non-derivable token string %r" % (ctext,))
             canon = (cv[1], observe(ctext, _budget(ctext)))
             ctx.trace()
-        verdict, obs = self.check_text(text, ctx)
+        verdict, obs = self.check_text(text, ctx, with_fuel=bundle is False)
         if verdict != ("ok", canon[0]):
             raise AssertionError("the model does not regard %r as a layout of %r: %r" % (text, S.join(toks), verdict))
         if obs != canon[1] and obs[0] == "accept" and obs[1] == verdict[1]:
@@ -673,10 +727,10 @@ class C02(Check):
         canon = (cv[1], observe(ctext, _budget(ctext)))
         ctx.trace()
         if extra != 2:
-            self._run_layout(toks, base, ctx, canon)
+            self._run_layout(toks, base, ctx, canon, True)
         if extra:
             for j in range((max(idxs) + 1) if idxs else 0, len(D)):
-                self._run_layout(toks, base + (D[j],), ctx, canon)
+                self._run_layout(toks, base + (D[j],), ctx, canon, True)
         ctx.transition(len(toks))
         ctx.state(S.recognise(_model_tokens(toks)).configs[-1])
         if any(k not in ("sp", "tab") for _p, k in base):
@@ -684,7 +738,7 @@ class C02(Check):
 
     # ---- model self-check --------------------------------------------------------------
     def selfcheck(self):
-        stats = S.selfcheck(maxlen=5, full_maxlen=6)
+        stats = S.selfcheck(maxlen=7, full_maxlen=6)
         for pid, toks in enumerate(POOL):
             res = S.recognise(_model_tokens(toks))
             assert res.ok, ("pool program not derivable", pid, res.error_index)
